@@ -812,6 +812,10 @@ def run(pid, tier):
             ev = traces[ti][f['l'] - 1] if f['l'] - 1 < len(traces[ti]) else {}
             v.fail(f['clause'], {'trace': ti, 'event': f['l'], 'obj': f['obj'], 'info': f['info']},
                    signature=signature(f, ev, traces[ti], programs[ti]), replay={'program': programs[ti]})
+    if pid == 'C15':
+        sessions_check(v)
+    if pid == 'C02':
+        depth_check(v, tier)
     twin_stats = {}
     if pid in ('C03', 'C18'):
         twin_stats = erasure(v, programs, traces, prefix='C18.pure' if pid == 'C18' else 'C03.erasure')
@@ -1032,6 +1036,40 @@ def signature(f, ev, trace, prog):
         if home and home['rlink']['k'] == 'one' and home['rlink']['rt'] == 'JE':
             return 'je-block-handover'
     return None
+
+
+def depth_check(v, tier):
+    """C02 at the documented graph depth limit (spec/DepthTrace.tla): one long chain just inside the limit (thorough: also a
+    mid-size one and one two short of the limit)."""
+    sc = scratch()
+    tin, tout = os.path.join(sc, 'depth_in.json'), os.path.join(sc, 'depth_out.json')
+    ns = [4999] if tier == 'quick' else [1200, 4998, 4999]
+    run_impl('drv_depth.py', [tin] + ns, timeout=3000)
+    rows = json.load(open(tin))
+    run_tlc('DepthTrace', 'SPECIFICATION Spec\n', env={'VERIF_IN': tin, 'VERIF_OUT': tout}, workers=1, timeout=300)
+    res = json.load(open(tout))
+    for f in res['fails']:
+        for c in f['clauses']:
+            v.fail(c, {'chain_length': rows[f['row'] - 1]['n'], 'row': rows[f['row'] - 1]}, replay={'row': rows[f['row'] - 1]})
+    v.coverage['depth_limit'] = {'chains': ns, 'rows': rows}
+
+
+def sessions_check(v):
+    """C15, names across interpreter sessions: the same fixed circuits exported in two sessions with different hash seeds."""
+    sc = scratch()
+    outs = []
+    for k, seed_ in enumerate(('101', '202')):
+        o = os.path.join(sc, 'qlnames_%d.json' % k)
+        run_impl('drv_qlnames.py', [o], extra_env={'PYTHONHASHSEED': seed_})
+        outs.append(json.load(open(o)))
+    rows = [{'a': a_, 'b': b_} for a_, b_ in zip(*outs)]
+    tin, tout = os.path.join(sc, 'names_in.json'), os.path.join(sc, 'names_out.json')
+    json.dump(rows, open(tin, 'w'))
+    run_tlc('NamesTrace', 'SPECIFICATION Spec\n', env={'VERIF_IN': tin, 'VERIF_OUT': tout}, workers=1, timeout=300)
+    res = json.load(open(tout))
+    for f in res['fails']:
+        v.fail('C15.names.sessions', {'circuit': f['circuit'], 'session_a': f['a'], 'session_b': f['b']}, replay={'row': rows[f['row'] - 1]})
+    v.coverage['names_across_sessions'] = {'circuits': len(rows), 'disagreeing': len(res['fails'])}
 
 
 def events_by_kind(traces):
